@@ -200,6 +200,30 @@ class CallMixin:
             return self.apply_contract(ic, {"self": ref}, path, node)
         if self.has_field(attr, ci):
             return self.read_field(ref, attr, path, node)
+        # attribute of a more specific interface: the object must be an instance of it (else AttributeError)
+        cands = [k for k in self.registry.iface if k.endswith("." + attr) and not k.startswith("*.")]
+        if len(cands) == 1:
+            cname = cands[0].rsplit(".", 1)[0]
+            if self.repo.has_cls(cname):
+                self.safe(path, "attr", self.isinstance_expr(path, ref, cname), node)
+                ic = self.registry.iface[cands[0]]
+                if ic.params or ic.note == "method":
+                    return sv.SPy("ibound", (ic, ref))
+                return self.apply_contract(ic, {"self": ref}, path, node)
+        cands = [k for k in cands if self.repo.has_cls(k.rsplit(".", 1)[0])]
+        if len(cands) > 1 and all(not (self.registry.iface[k].params or self.registry.iface[k].note == "method") for k in cands):
+            # several interfaces declare the attribute: case split on the dynamic class
+            guards = [self.isinstance_expr(path, ref, k.rsplit(".", 1)[0]) for k in cands]
+            self.safe(path, "attr", sv.Or(*guards), node)
+            res = None
+            for g, k in reversed(list(zip(guards, cands))):
+                path.guards.append(g)
+                try:
+                    v = self.apply_contract(self.registry.iface[k], {"self": ref}, path, node)
+                finally:
+                    path.guards.pop()
+                res = v if res is None else sv.ite(g, v, res)
+            return res
         raise Unsupported(f"attribute '{attr}' of interface reference {ref.cls}: no interface contract, no declared field", node)
 
     def static_names(self, ref):
